@@ -50,10 +50,19 @@ def check_claim(ctx, model):
         ok = bool(a0) and all(o.proj and o.proj[-1] == "amount" and "total" in o.proj for o in a0) and bool(a1) and all(o.proj and o.proj[-1] == "share" for o in a1)
         ctx.ob("C09-D1", "%s|reward=floor(total*share)" % CLAIM, ok, "reward = %s .checked_mul_floor(%s)" % (sorted(map(repr, a0)), sorted(map(repr, a1))), v.where(b))
     # (i) available -= reward (checked)
-    subs = [(b, t) for b, t in v.calls_to(r"Uint128::checked_sub$") if rew(arg_origins(v, b, t, 1))]
-    adds = [(b, t) for b, t in v.calls_to(r"Uint128::checked_add$") if rew(arg_origins(v, b, t, 1))]
-    sub_ok = bool(subs) and all(any(o.proj and "available" in o.proj for o in arg_origins(v, b, t, 0)) for b, t in subs)
-    add_ok = bool(adds) and all(any(o.proj and "claimed" in o.proj for o in arg_origins(v, b, t, 0)) for b, t in adds)
+    # the updates sit in the handler's loops or in closures of iterator pipelines over the ledgers: each site is read in its
+    # own body and translated back (site = (view, chain, block, term); root_block = where it happens in the handler)
+    def sites(rx):
+        return [(sv, ch, b, t) for sv, ch, b, t in scope_calls(model, CLAIM, rx)
+                if rew(scope_origins(model, ch, sv, t["args"][1], sv.at_term(b)))]
+
+    def root_block(ch, b):
+        return ch[0][1] if ch else b
+    sub_sites, add_sites = sites(r"Uint128::checked_sub$"), sites(r"Uint128::checked_add$")
+    subs = [(root_block(ch, b), t) for sv, ch, b, t in sub_sites]
+    adds = [(root_block(ch, b), t) for sv, ch, b, t in add_sites]
+    sub_ok = bool(sub_sites) and all(any(o.proj and "available" in o.proj for o in scope_origins(model, ch, sv, t["args"][0], sv.at_term(b))) for sv, ch, b, t in sub_sites)
+    add_ok = bool(add_sites) and all(any(o.proj and "claimed" in o.proj for o in scope_origins(model, ch, sv, t["args"][0], sv.at_term(b))) for sv, ch, b, t in add_sites)
     ctx.ob("C09-D1", "%s|available-=reward" % CLAIM, sub_ok, "checked_sub(available.amount, reward) sites: %d" % len(subs), v.where())
     ctx.ob("C09-D1", "%s|claimed+=reward" % CLAIM, add_ok, "checked_add(claimed.amount, reward) sites: %d" % len(adds), v.where())
     # claimed initial vector and payout aggregate carry the same reward
@@ -96,10 +105,49 @@ def check_claim(ctx, model):
                     # (an entry pushed earlier in this call may itself have been built from fee.info)
                     if any(led in o.proj for o in x) and all(led in o.proj or is_fee_info({o}) for o in x):
                         eq_edges[led] += eq
-    for led, sites in (("available", subs), ("claimed", adds)):
-        ok = bool(sites) and bool(eq_edges[led]) and all(v.edge_dominated(b, eq_edges[led]) for b, t in sites)
+    def filtered_by_same_asset(sv, ch, led):
+        """The update closure only ever sees entries that passed `.filter(|e| e.info == fee.info)`: the adapter call that
+        takes this closure iterates a filter whose predicate returns exactly that comparison."""
+        from ..mir import resolve_bool
+        from ..guards import resolve as _res
+        if not ch:
+            return False
+        pv = model.view(ch[-1][0])
+        for cb_, cp_, ops_ in pv.closures_created():
+            if cp_ != sv.path:
+                continue
+            cl = [s_["lhs"]["l"] for b_, i_, s_ in pv.iter_stmts() if b_ == cb_ and s_["rv"]["r"] == "agg" and s_["rv"].get("closure") == cp_]
+            for ab, at_ in pv.iter_calls():
+                if not any(a.get("k") in ("copy", "move") and a["pl"]["l"] in cl for a in at_["args"][1:]):
+                    continue
+                with pv.opaque(r"Iterator>::filter$"):
+                    recv = pv.origins_of_operand(at_["args"][0], at=pv.at_term(ab))
+                for o in recv:
+                    fc = call_of(pv, o)
+                    if not fc or not mname(fc[1]).endswith("Iterator>::filter"):
+                        continue
+                    for po in pv.origins_of_operand(fc[1]["args"][1], at=pv.at_term(fc[0])):
+                        if po.kind != "closure" or po.a not in model.fnsrc:
+                            continue
+                        fv = model.view(po.a)
+                        fch = tuple(ch[:-1]) + ((pv.path, int(po.b.rsplit(":bb", 1)[1]), "closure"),)
+                        for rb_ in fv.return_blocks():
+                            c = resolve_bool(fv, {"k": "copy", "pl": {"l": 0, "p": []}}, at=fv.at_term(rb_))
+                            if c.kind != "cmp" or c.op != "==" or c.b is None:
+                                continue
+                            at = cond_at(fv, c)
+                            oa = _res(model, fch, fv, fv.origins_of_operand(c.a, at=at), elems=True)
+                            ob = _res(model, fch, fv, fv.origins_of_operand(c.b, at=at), elems=True)
+                            for x, y in ((oa, ob), (ob, oa)):
+                                if is_fee_info(y) and x and all(o2.proj and o2.proj[-1] == "info" for o2 in x) and any(led in o2.proj for o2 in x) \
+                                        and all(led in o2.proj or is_fee_info({o2}) for o2 in x):
+                                    return True
+        return False
+    for led, ss in (("available", sub_sites), ("claimed", add_sites)):
+        ok = bool(ss) and all((not ch and bool(eq_edges[led]) and v.edge_dominated(b, eq_edges[led])) or filtered_by_same_asset(sv, ch, led)
+                               for sv, ch, b, t in ss)
         ctx.ob("C09-D1", "%s|%s-updated-for-the-same-asset-only" % (CLAIM, led), ok,
-               "every %s update is dominated by `entry.info == fee.info`: %s" % (led, ok), v.where(sites[0][0]) if sites else v.where())
+               "every %s update is dominated by `entry.info == fee.info`: %s" % (led, ok), ss[0][0].where(ss[0][2]) if ss else v.where())
     ctx.ob("C09-D1", "%s|reward-assets" % CLAIM, n_agg >= 2, "Asset{amount: reward} constructions (claimed initial entry, payout entry): %d" % n_agg, v.where())
     saves = storage_calls(v, "fee_distributor::state::EPOCHS", ("save",))
     for sb, st in saves:
@@ -120,7 +168,8 @@ def check_claim(ctx, model):
         av = v.origins_of_operand(val, proj=("available",), at=v.at_term(sb), taint=True)
         cl = v.origins_of_operand(val, proj=("claimed",), at=v.at_term(sb), taint=True)
         ctx.ob("C09-D1", "%s|saved-epoch-carries-updates" % CLAIM,
-               any(o.kind == "call" and o.a.endswith("checked_sub") for o in av) and any(o.kind == "call" and (o.a.endswith("checked_add") or o.a.endswith("checked_mul_floor")) for o in cl),
+               (any(o.kind == "call" and o.a.endswith("checked_sub") for o in av) or (sub_ok and any(ch for sv, ch, b, t in sub_sites)))
+               and any(o.kind == "call" and (o.a.endswith("checked_add") or o.a.endswith("checked_mul_floor")) for o in cl),
                "saved epoch.available depends on checked_sub: %s; saved epoch.claimed depends on the reward: %s" % (
                    any(o.kind == "call" and o.a.endswith("checked_sub") for o in av), any(o.kind == "call" for o in cl)), v.where(sb))
     # payout
